@@ -304,6 +304,117 @@ def rule_restore(rep, funcs):
                    sample=(hyp(f) == "TRIDIMENSIONAL"))
 
 
+# ------------------------------------------------ write-back only on success
+INPUT_PATHS = ("d.s1.gradients", "d.s1.material_properties", "d.s1.external_state_variables", "d.s1.mass_density")
+MUTABLE_VIEW = re.compile(r"(^|::)(?!Const)\w*View(<|$)")
+
+
+def rule_writeback(rep, funcs):
+    """in the strain-measure wrappers, after the inner integration returned, the caller's end-of-step data (d.s1.*, d.K, d.rdt) is
+    written only on paths where the status is known not to be -1: a failed call leaves the outputs as they were."""
+    for f in funcs:
+        if f.qname not in WRAPPERS or f.d.get("isLambda") or f.entry is None:
+            continue
+        inner = None
+        for sid, n in f.stmts.items():
+            if n["k"] == "DeclStmt":
+                for d in n["decls"]:
+                    if "init" in d and d["type"] in ("int", "const int"):
+                        cn = f.stmts[f.strip(d["init"])]
+                        if cn["k"] == "CallExpr" and TRI_SOURCES.match(cn.get("callee") or ""):
+                            inner = (sid, d["declId"], d["name"])
+        if inner is None:
+            continue
+        rep.count("wrappers examined for write-back on failure")
+        isid, rid, rname = inner
+
+        def lit(x):
+            n_ = f.stmts.get(f.strip(x))
+            if n_ is None:
+                return None
+            if n_["k"] == "IntegerLiteral":
+                return int(n_["value"])
+            if n_["k"] == "UnaryOperator" and n_.get("op") == "-":
+                v = lit(f.kids(f.strip(x))[0])
+                return None if v is None else -v
+            return None
+
+        def atom(f_, s_):
+            bo = f_.binop(s_)
+            if bo and bo[0] in ("==", "!="):
+                for a, b in ((bo[1], bo[2]), (bo[2], bo[1])):
+                    an = f_.stmts.get(f_.strip(a))
+                    if an is not None and an["k"] == "DeclRefExpr" and an.get("declId") == rid and lit(b) is not None:
+                        return (("status", lit(b)), bo[0] == "!=")
+            return None
+
+        def out_path(x):
+            p = f.path(x)
+            if p and (p.startswith("d.s1.") or p in ("d.K", "d.rdt", "d.speed_of_sound")) and p not in INPUT_PATHS:
+                return p
+            return None
+
+        def write_of(sid):
+            """the caller-visible path this statement writes through, if any."""
+            n_ = f.stmts[sid]
+            if n_["k"] in ("CXXConstructExpr", "CXXTemporaryObjectExpr") and MUTABLE_VIEW.search(n_.get("ctorClass") or ""):
+                for a in n_.get("args") or []:
+                    p = out_path(a)
+                    if p:
+                        return p
+            if n_["k"] == "CallExpr" and re.search(r"(copy<.*>::exe|std::copy|std::copy_n|std::fill|std::fill_n)$", (n_.get("callee") or "").split("(")[0]):
+                a = n_.get("args") or []
+                if a:
+                    p = out_path(a[-1]) if "fill" not in n_["callee"] else out_path(a[0])
+                    if p:
+                        return p
+            bo = f.binop(sid)
+            if bo and (bo[0] == "=" or bo[0].endswith("=") and bo[0] not in ("==", "!=", "<=", ">=")):
+                l = f.stmts.get(f.strip(bo[1]))
+                if l is not None and l["k"] == "ArraySubscriptExpr":
+                    return out_path(f.kids(f.strip(bo[1]))[0])
+                if l is not None and l["k"] == "UnaryOperator" and l.get("op") == "*":
+                    return out_path(f.kids(f.strip(bo[1]))[0])
+            return None
+        bad = {}
+        nw = [0]
+
+        def el(st, b, i, e):
+            if "s" not in e:
+                return (st,)
+            facts, after = st
+            sid = e["s"]
+            if sid == isid:
+                return ((facts, True),)
+            if after:
+                p = write_of(sid)
+                if p:
+                    nw[0] += 1
+                    fx = dict(facts)
+                    ok = fx.get(("status", -1)) is False or fx.get(("status", 1)) is True or fx.get(("status", 0)) is True
+                    if not ok:
+                        bad.setdefault(p, sid)
+            return (st,)
+
+        def ed(st, b, succ, pol):
+            facts, after = st
+            fx = branch(f, b, pol, dict(facts), atom)
+            if fx is None:
+                return ()
+            return ((tuple(sorted(fx.items(), key=repr)), after),)
+        forward(f, (((), False),), el, ed)
+        rep.count("write-back sites after the inner integration", nw[0])
+        if bad:
+            for p, sid in sorted(bad.items()):
+                key = "WRITE-BACK-ON-FAILURE@%s#%s" % (f.qname, p)
+                if not any(v["key"] == key for v in rep.violations):
+                    rep.fail(key, "%s: %s writes %s after the inner integration on a path where its status '%s' may be -1: a failed call "
+                             "overwrites the caller's end-of-step data [%s]" % (rel(f.short_loc(sid)), f.qname, p, rname, hyp(f)))
+        else:
+            rep.ok("%s: the caller's end-of-step data is written back only when the status is not -1 (%d sites) [%s]" % (f.qname, nw[0], hyp(f)),
+                   sample=(hyp(f) == "TRIDIMENSIONAL"))
+
+
 # ------------------------------------------------------- policy forwarding
 def rule_policy(rep, funcs):
     for f in funcs:
